@@ -394,7 +394,8 @@ func (r *runner) execute(mode string, seed int64, pick picker) (ex execution) {
 func main() {
 	var (
 		in      = flag.String("in", "", "programs, one JSON object per line")
-		mode    = flag.String("mode", "random", "random | dfs | sched")
+		mode    = flag.String("mode", "random", "random | dfs | sched | free (uncontrolled goroutines)")
+		client  = flag.String("client", "inline", "free mode: inline | external")
 		runs    = flag.Int("runs", 20, "random: executions per program; dfs: maximum executions per program")
 		bound   = flag.Int("preempt", 2, "dfs: preemption bound")
 		seed    = flag.Int64("seed", 1, "seed")
@@ -434,6 +435,11 @@ func main() {
 		filter := func(parked []*sched.Actor) []*sched.Actor { return parked }
 		_ = harness
 		switch {
+		case *mode == "free":
+			for i := 0; i < *runs; i++ {
+				enc.Encode(r.executeFree(*client, *seed*1000003+int64(i)))
+				w.Flush()
+			}
 		case len(p.Schedule) > 0 || *mode == "sched":
 			pos := 0
 			ex := r.execute("sched", *seed, func(parked []*sched.Actor, cur *sched.Actor) (int, bool) {
